@@ -33,7 +33,6 @@ var invariantOf = map[string]string{
 	"logs-duplicated":                 "exact-logs-in-order",
 	"logs-missing":                    "exact-logs-in-order",
 	"logs-unexpected":                 "exact-logs-in-order",
-	"incomplete-after-recovery":       "bounded-liveness",
 	"not-resubscribed-after-recovery": "bounded-liveness",
 	"lost-subscription-without-fault": "bounded-liveness",
 }
@@ -55,12 +54,26 @@ func (w *world) attribution(phase string) string {
 	return "multiple-faults/mixed"
 }
 
+// cursorKinds: failures whose cause is where the client resumed; their signature names the fault that
+// ended the preceding invocation and the code path. All other kinds (content of an entry, state of
+// the node process) do not depend on which fault came before: their signature only says whether any
+// fault was pending, and the phase.
+var cursorKinds = map[string]bool{"block-skipped": true, "block-redelivered": true, "block-out-of-order": true,
+	"block-before-start": true, "block-beyond-follow-distance": true, "not-resubscribed-after-recovery": true}
+
 func (w *world) findingIn(phase, what, format string, a ...any) {
 	inv := invariantOf[what]
 	if inv == "" {
 		inv = "bounded-liveness"
 	}
-	w.d.Finding(inv, what+"/"+w.attribution(phase), format, a...)
+	sig := what + "/" + w.attribution(phase)
+	if !cursorKinds[what] {
+		sig = what + "/no-fault/" + phase
+		if phase != "finale" && (len(w.pending) > 0 || w.episode != "") {
+			sig = what + "/after-fault/" + phase
+		}
+	}
+	w.d.Finding(inv, sig, format, a...)
 }
 
 func (w *world) finding(what, format string, a ...any) { w.findingIn("finale", what, format, a...) }
@@ -76,6 +89,17 @@ func (w *world) applyEnds(upto int) {
 		} else if !inv.endApplied {
 			inv.endApplied = true
 			c, p := inv.label()
+			// labelling only (never judged): an earlier fault after which the client demonstrably resumed
+			// at the right block (first eth_getLogs of this invocation starts right after the last entry)
+			// is not the cause of what follows
+			want := w.start0
+			if w.any {
+				want = w.hwm + 1
+			}
+			if len(w.pending) > 0 && inv.getLogsReq > 0 && inv.entries == 0 && inv.firstFrom == want {
+				w.d.Logf("  (resumed at %d as expected: earlier faults %v exonerated)", want, w.pending)
+				w.pending = nil
+			}
 			w.pending = append(w.pending, c+"/"+p)
 			w.endFaults++
 			w.d.Logf("  invocation %d (session %d, stream=%v, first getLogs from %d, %d getLogs ok, %d entries) ended by %s/%s",
@@ -98,6 +122,20 @@ func (w *world) judge() {
 	w.applyEnds(len(w.invs))
 }
 
+// A replay episode (entries at or below the high-water mark, all consequences of one wrong resume)
+// lasts while the stream is still behind the high-water mark; once it has caught up, whatever goes
+// wrong next has its own cause.
+func (w *world) endEpisodeIfCaughtUp(block uint64) {
+	mark := w.hwm
+	if !w.any || w.start0-1 > mark {
+		mark = w.start0 - 1
+	}
+	if block >= mark {
+		w.episode = ""
+		w.pending = nil
+	}
+}
+
 func (w *world) judgeEntry(e entry) {
 	d := w.d
 	inv := w.invs[e.inv]
@@ -112,6 +150,7 @@ func (w *world) judgeEntry(e entry) {
 			w.episode = w.attribution(phase)
 		}
 		w.findingIn(phase, "block-before-start", "entry for block %d (%d logs) although the requested start is %d", e.block, len(e.logs), w.start0)
+		w.endEpisodeIfCaughtUp(e.block)
 		return
 	}
 	if w.any && e.block <= w.hwm {
@@ -125,6 +164,7 @@ func (w *world) judgeEntry(e entry) {
 		w.findingIn(phase, what, "entry for block %d (%d logs) handed over after the entry for block %d (block %d was handed over %d time(s) before)",
 			e.block, len(e.logs), w.hwm, e.block, w.delivered[e.block])
 		d.Probe("entry-not-increasing")
+		w.endEpisodeIfCaughtUp(e.block)
 		return
 	}
 	w.episode = ""
